@@ -437,6 +437,23 @@ pub fn record_sessions(rest: &[String]) -> anyhow::Result<()> {
                     b.insert(pos, json!({"k": "expr", "e": {"k": "call", "f": {"k": "var", "n": "emit"}, "args": [{"k": "var", "n": "undefined_zz"}],
                         "named": [], "star": {"k": "absent"}, "starstar": {"k": "absent"}}}));
                 }
+                // sometimes the chunk ends by running into the call-stack limit (unbounded recursion,
+                // directly or through a native callback): afterwards the stack must be empty again and
+                // the next chunks must behave as on a fresh evaluator
+                if !st && g.rng.chance(1, 9) {
+                    let via_map = g.rng.chance(1, 3);
+                    let call_self = |arg: J| json!({"k": "call", "f": {"k": "var", "n": "runaway_"}, "args": [arg], "named": [], "star": {"k": "absent"}, "starstar": {"k": "absent"}});
+                    let next = json!({"k": "bin", "op": "+", "l": {"k": "var", "n": "n_"}, "r": {"k": "int", "v": 1}});
+                    let body = if via_map {
+                        json!({"k": "call", "f": {"k": "var", "n": "map"}, "args": [{"k": "var", "n": "runaway_"}, {"k": "list", "items": [next]}], "named": [], "star": {"k": "absent"}, "starstar": {"k": "absent"}})
+                    } else {
+                        call_self(next)
+                    };
+                    b.push(json!({"k": "def", "name": "runaway_", "params": [{"n": "n_", "ncp": [110, 95], "kind": "normal", "d": {"k": "absent"}}],
+                        "body": [{"k": "return", "e": body}]}));
+                    b.push(json!({"k": "expr", "e": {"k": "call", "f": {"k": "var", "n": "emit"}, "args": [call_self(json!({"k": "int", "v": 0}))],
+                        "named": [], "star": {"k": "absent"}, "starstar": {"k": "absent"}}}));
+                }
                 statics_flags.push(st);
                 chunks.push(J::Array(b));
             }
